@@ -256,6 +256,7 @@ def normalise(parsed: List[Tuple[str, ast.Module, bool]]) -> Dict[str, List[str]
             elif isinstance(x, ast.Call) and isinstance(x.func, ast.Name) and x.func.id in ("setattr", "delattr") and len(x.args) >= 2 and isinstance(x.args[1], ast.Constant):
                 attr_binds[str(x.args[1].value)] = attr_binds.get(str(x.args[1].value), 0) + 1
     class_consts: Dict[str, ast.AST] = {}
+    class_consts_local: Dict[str, Dict[str, ast.AST]] = {}
     for module, tree, _k in parsed:
         for c in ast.walk(tree):
             if isinstance(c, ast.ClassDef):
@@ -266,13 +267,27 @@ def normalise(parsed: List[Tuple[str, ast.Module, bool]]) -> Dict[str, List[str]
                             and f"{module}:{c.name}.{tg.id}" not in ref_g and attr_binds.get(tg.id) == 1:
                         class_consts[tg.id] = v
                         log.setdefault(module, []).append(f"{module}:{c.name}.{tg.id} = literal (folded)")
-    if class_consts:
+                    elif isinstance(tg, ast.Name) and tg.id.startswith("_") and not tg.id.startswith("__") and v is not None \
+                            and f"{module}:{c.name}.{tg.id}" not in ref_g and attr_binds.get(tg.id) == 1:
+                        # a tuple of names this module imports (`_sign_key_types = (Ed25519PrivateKey, Ed448PrivateKey)`): as constant as a literal, but
+                        # the names mean something in this module only
+                        mstores: Dict[str, int] = {}
+                        for x in ast.walk(tree):
+                            if isinstance(x, ast.Name) and isinstance(x.ctx, (ast.Store, ast.Del)):
+                                mstores[x.id] = mstores.get(x.id, 0) + 1
+                        if _tuple_of_imports(v, tree, mstores):
+                            class_consts_local.setdefault(module, {})[tg.id] = v
+                            log.setdefault(module, []).append(f"{module}:{c.name}.{tg.id} = tuple of imported names (folded)")
+    if class_consts or class_consts_local:
         for module, tree, _k in parsed:
+            cc = dict(class_consts)
+            cc.update(class_consts_local.get(module, {}))
+
             class RC(ast.NodeTransformer):
                 def visit_Attribute(self, n: ast.Attribute):
                     self.generic_visit(n)
-                    if n.attr in class_consts and isinstance(n.ctx, ast.Load) and isinstance(n.value, ast.Name):
-                        return ast.copy_location(copy.deepcopy(class_consts[n.attr]), n)
+                    if n.attr in cc and isinstance(n.ctx, ast.Load) and isinstance(n.value, ast.Name):
+                        return ast.copy_location(copy.deepcopy(cc[n.attr]), n)
                     return n
             RC().visit(tree)
 
